@@ -405,13 +405,22 @@ func ExecLine(line string) (res h.Result) {
 			res.Oracle = "sign-failed: " + err.Error()
 		} else {
 			res.Impl = "ok " + h.Hex(sig)
-			if !bytes.Equal(sig, ValidShare(coeffs, hs, i)) {
-				res.Oracle = "sign-wrong-share: not index ‖ x_i·H(m)"
-			} else if err := tbls.Verify(Suite(), pub, msg, sig); err != nil {
-				res.Oracle = "own-share-rejected: " + err.Error()
+			verr := tbls.Verify(Suite(), pub, msg, sig)
+			switch {
+			case !bytes.Equal(sig, ValidShare(coeffs, hs, i)):
+				res.Oracle = "sign-wrong-share: not (index mod 2^16) ‖ x_i·H(m)"
+			case i < 1<<16 && verr != nil:
+				res.Oracle = "own-share-rejected: " + verr.Error()
+			case i >= 1<<16 && verr == nil && RefEval(coeffs, i).Cmp(RefEval(coeffs, i%(1<<16))) != 0:
+				// beyond the 2-byte index format (a declared limit of the wire format): the share carries another
+				// member's number and must be treated like any share under a wrong index
+				res.Oracle = "invalid-share-accepted: a share of member >= 2^16 (labelled i mod 2^16) verified"
 			}
 		}
 		res.Class, res.Nontrivial = "sign", true
+		if i >= 1<<16 {
+			res.Class = "sign-index-beyond-format"
+		}
 	case "blssign": // blssign <h> <x> <msg>
 		hs, x, msg := h.BigDec(w[1]), h.BigDec(w[2]), Msg(w[3])
 		if HashScalar(msg).Cmp(hs) != 0 {
@@ -845,6 +854,11 @@ func gen(tier string, rng *h.Rng, emit0 func(string)) {
 		msgTok := MsgTok(rng.Bytes(rng.Intn(50)))
 		hs := HashScalar(Msg(msgTok))
 		emit(fmt.Sprintf("sign %s %s %s %d", hs, CSVOf(coeffs), msgTok, rng.Intn(300)))
+		if k%4 == 0 { // around and beyond the 2-byte index format
+			for _, i := range []int{65535, 65536, 65537, 65536 + rng.Intn(300), 1<<20 + 3} {
+				emit(fmt.Sprintf("sign %s %s %s %d", hs, CSVOf(coeffs), msgTok, i))
+			}
+		}
 		x := []*big.Int{big.NewInt(0), big.NewInt(1), new(big.Int).Sub(R, big.NewInt(1)), rng.Big(R)}[k%4]
 		emit(fmt.Sprintf("blssign %s %s %s", hs, x, msgTok))
 	}
